@@ -23,7 +23,7 @@ import (
 //         Core C11DCore  (named value, prefix c_)        level 3:  Land (key one level up)  RegionID Region (target's key embedded)  Tasks (has-many)  Badge (has-one)
 //     *C11DSide          (anonymous POINTER, no prefix)  level 1:  DockID Dock
 //     Wing    *C11DWing  (named POINTER, prefix w_)      level 1:  PortID Port  Notes (polymorphic)
-//     PortID  (decoy, level 0, declared after Wing)      ZoneID (level 0, fk of Base by Go-name tag)  Base
+//     PortID  (decoy, level 0, declared after Wing)      SpotID (level 0: fk of Core.Spot, whose tag names it by Go name)  ZoneID (level 0, fk of Base by Go-name tag)  Base
 //   C11DTask                     ID N DeletedAt
 //     Geo     C11DGeo    (named value, prefix g_)        ZoneID Zone   — the shared struct again, other prefix
 //     Meta    C11DMeta   (prefix m_)                     Deep{C11DOrgID (decoy, declared FIRST)}  C11DOrgID (fk of Org.Tasks and Task.Org)
@@ -108,6 +108,8 @@ type C11DNote struct {
 func (C11DNote) TableName() string { return "c11d_notes" }
 
 type C11DCore struct {
+	SpotID   *uint
+	Spot     *C11DZone `gorm:"foreignKey:SpotID"` // explicit tag by Go name: resolved MODEL-WIDE (last declared SpotID = the top-level one)
 	Land     *C11DZone
 	RegionID *uint
 	Region   *C11DRegion
@@ -122,13 +124,13 @@ type C11DInner struct {
 }
 
 type C11DOuter struct {
-	ZoneID   *uint
-	LandID   *uint
 	Home     *C11DZone `gorm:"foreignKey:o_zone_id"`
 	ParentID *uint
 	Parent   *C11DOrg
 	Tags     []C11DTag `gorm:"many2many:c11d_org_tags;joinForeignKey:OrgID;joinReferences:TagID"`
 	Inner    C11DInner `gorm:"embedded;embeddedPrefix:i_"`
+	ZoneID   *uint // declared AFTER the nested struct that holds Zone and its own ZoneID
+	LandID   *uint
 }
 
 type C11DSide struct {
@@ -150,6 +152,7 @@ type C11DOrg struct {
 	*C11DSide
 	Wing   *C11DWing `gorm:"embedded;embeddedPrefix:w_"`
 	PortID *uint
+	SpotID *uint
 	ZoneID *uint
 	Base   *C11DZone `gorm:"foreignKey:ZoneID"`
 }
@@ -165,6 +168,7 @@ func init() {
 		{Field: "Zone", Emb: "Outer.Inner", Kind: "belongs_to", Child: "c11d_zones", Single: true, On: c11Pairs("o_i_zone_id", "id")},
 		{Field: "Home", Emb: "Outer", Kind: "belongs_to", Child: "c11d_zones", Single: true, On: c11Pairs("o_zone_id", "id")},
 		{Field: "Base", Kind: "belongs_to", Child: "c11d_zones", Single: true, On: c11Pairs("zone_id", "id")},
+		{Field: "Spot", Emb: "Outer.Inner.Core", Kind: "belongs_to", Child: "c11d_zones", Single: true, On: c11Pairs("spot_id", "id")},
 		{Field: "Land", Emb: "Outer.Inner.Core", Kind: "belongs_to", Child: "c11d_zones", Single: true, On: c11Pairs("o_i_land_id", "id")},
 		{Field: "Region", Emb: "Outer.Inner.Core", Kind: "belongs_to", Child: "c11d_regions", Single: true, On: c11Pairs("o_i_c_region_id", "b_id")},
 		{Field: "Tasks", Emb: "Outer.Inner.Core", Kind: "has_many", Child: "c11d_tasks", On: c11Pairs("id", "m_org_id")},
@@ -181,7 +185,7 @@ func init() {
 	}
 	famD := &c11Family{Name: "D", Tables: []*c11Table{
 		{Name: "c11d_orgs", Model: &C11DOrg{}, Cols: []c11ColT{{"id", "uint", false}, up("o_i_zone_id"), up("o_zone_id"), up("zone_id"), up("o_i_land_id"), up("o_land_id"),
-			up("o_i_c_region_id"), up("w_port_id"), up("port_id"), up("dock_id"), up("o_parent_id")}, Rels: orgRels},
+			up("o_i_c_region_id"), up("w_port_id"), up("port_id"), up("dock_id"), up("o_parent_id"), up("spot_id"), up("o_i_c_spot_id")}, Rels: orgRels},
 		{Name: "c11d_zones", Model: &C11DZone{}, Cols: []c11ColT{{"id", "uint", false}}},
 		{Name: "c11d_regions", Model: &C11DRegion{}, Cols: []c11ColT{{"b_id", "uint", false}}},
 		{Name: "c11d_tasks", Model: &C11DTask{}, Cols: []c11ColT{up("m_org_id"), up("m_d_org_id"), up("g_zone_id")}, Rels: taskRels},
@@ -192,6 +196,7 @@ func init() {
 	}, Decoys: []c11Decoy{
 		{"c11d_orgs", "o_land_id", "o_i_land_id"},
 		{"c11d_orgs", "port_id", "w_port_id"},
+		{"c11d_orgs", "o_i_c_spot_id", "spot_id"},
 		{"c11d_tasks", "m_d_org_id", "m_org_id"},
 	}}
 	famD.Gen = func(rng *rand.Rand, mode int) c11World {
